@@ -640,26 +640,31 @@ func vC02GenCase(r *vRng, thorough bool) vSx {
 }
 
 // thorough: short traces over an abstract alphabet, every combination
-// letter = header type x chunk stream (3 ids) x timestamp class x length class
+// letter = header type x chunk stream/basic header form x timestamp class x length class;
+// every word is run under each chunk size class (announced by a leading Set Chunk Size)
 func vC02Enumerate(depth int, reduced bool, emit func(vSx)) {
-	css := []uint64{3, 64, 320}
+	type csf struct{ cid, form uint64 }
+	css := []csf{{3, 1}, {64, 2}, {64, 3}, {320, 3}}
 	tsc := []uint64{0, 26, 0xfffffe, 0x1000000}
 	lens := []int{1, 128, 129}
+	sizes := []uint64{128, 1}
 	if reduced {
-		css = css[:2]
-		tsc = []uint64{0, 26, 0x1000000}
+		css = []csf{{3, 1}, {64, 3}}
+		tsc = []uint64{26, 0x1000000}
 		lens = []int{1, 129}
+		sizes = []uint64{128}
 	}
 	type letter struct {
-		f, cs, ts uint64
-		ln       int
+		f, ts uint64
+		cs    csf
+		ln    int
 	}
 	var letters []letter
 	for f := uint64(0); f < 4; f++ {
 		for _, c := range css {
 			for _, t := range tsc {
 				for _, l := range lens {
-					letters = append(letters, letter{f, c, t, l})
+					letters = append(letters, letter{f, t, c, l})
 				}
 			}
 		}
@@ -667,48 +672,51 @@ func vC02Enumerate(depth int, reduced bool, emit func(vSx)) {
 	var rec func(word []letter)
 	rec = func(word []letter) {
 		if len(word) > 0 {
-			// each letter = one whole message: its first chunk with the letter's header type,
-			// type-3 chunks for the rest; timestamps are prev + class (class = absolute for type 0)
-			sd := vC02NewSender(nil)
-			var steps, msgs []vSx
-			for _, le := range word {
-				m := &vC02Msg{cid: le.cs, typ: 9, sid: 1}
-				prev := sd.prev[le.cs]
-				m.ts = le.ts
-				if prev != nil && le.f != 0 {
-					m.ts = prev.ts + le.ts
-					if le.f == 3 {
-						m.ts = prev.ts + prev.delta
+			for _, size := range sizes {
+				// each letter = one whole message: its first chunk with the letter's header type,
+				// type-3 chunks for the rest; timestamps are prev + class (class = absolute for type 0)
+				sd := vC02NewSender(nil)
+				var steps, msgs []vSx
+				if size != 128 {
+					m := &vC02Msg{cid: 2, typ: 1, payload: vC01Be4(uint32(size))}
+					msgs = append(msgs, vL(vU(2), vU(0), vU(1), vU(0), vB(m.payload)))
+					sd.pend = append(sd.pend, m)
+					steps = append(steps, vL(vU(2), vU(1), vU(0), vU(0)))
+					sd.step(vC02Step{2, 1, 0, 0})
+				}
+				for _, le := range word {
+					cid := le.cs.cid
+					m := &vC02Msg{cid: cid, typ: 9, sid: 1}
+					prev := sd.prev[cid]
+					m.ts = le.ts
+					if prev != nil && le.f != 0 {
+						m.ts = prev.ts + le.ts
+						if le.f == 3 {
+							m.ts = prev.ts + prev.delta
+						}
+					}
+					ln := le.ln
+					if prev != nil && le.f >= 2 {
+						ln = int(prev.ln)
+					}
+					m.payload = make([]byte, ln)
+					for i := range m.payload {
+						m.payload[i] = byte(i % 251)
+					}
+					msgs = append(msgs, vL(vU(m.cid), vU(m.ts), vU(m.typ), vU(m.sid), vL(vI(ln), vI(0))))
+					sd.pend = append(sd.pend, m)
+					steps = append(steps, vL(vU(cid), vU(le.cs.form), vU(le.f), vU(0)))
+					sd.step(vC02Step{cid, le.cs.form, le.f, 0})
+					for {
+						if _, in := sd.fly[cid]; !in {
+							break
+						}
+						steps = append(steps, vL(vU(cid), vU(le.cs.form), vU(3), vU(0)))
+						sd.step(vC02Step{cid, le.cs.form, 3, 0})
 					}
 				}
-				ln := le.ln
-				if prev != nil && le.f >= 2 {
-					ln = int(prev.ln)
-				}
-				m.payload = make([]byte, ln)
-				for i := range m.payload {
-					m.payload[i] = byte(i % 251)
-				}
-				form := uint64(1)
-				if le.cs >= 64 {
-					form = 2
-				}
-				if le.cs >= 320 {
-					form = 3
-				}
-				msgs = append(msgs, vL(vU(m.cid), vU(m.ts), vU(m.typ), vU(m.sid), vL(vI(ln), vI(0))))
-				sd.pend = append(sd.pend, m)
-				steps = append(steps, vL(vU(le.cs), vU(form), vU(le.f), vU(0)))
-				sd.step(vC02Step{le.cs, form, le.f, 0})
-				for {
-					if _, in := sd.fly[le.cs]; !in {
-						break
-					}
-					steps = append(steps, vL(vU(le.cs), vU(form), vU(3), vU(0)))
-					sd.step(vC02Step{le.cs, form, 3, 0})
-				}
+				emit(vL(vLs(steps), vLs(msgs), vL()))
 			}
-			emit(vL(vLs(steps), vLs(msgs), vL()))
 		}
 		if len(word) == depth {
 			return
